@@ -49,6 +49,8 @@ package pledge
 //@ # surfaces (the requests run in an errgroup; the model runs each at its Go call, see DESIGN 8.1).
 //@ func (r *responsible) consultQuorum(ctx context.Context, key node.Key, quorum node.Group) (err error)
 //@   pragma opaque_func_values cancel
+//@   # every request carries the proposed key and goes to a member of the quorum
+//@   atcall Send req.Key == key && target == n.Address
 //@   ensures  forall k node.Key :: __in(quorum, k) ==> freighter.SpecSentTo[quorum[k].Address]
 //@   ensures  err == nil ==> (forall a address.Address :: freighter.SpecSendFailed[a] == old(freighter.SpecSendFailed[a]))
 //@   modifies freighter.SpecSentTo, freighter.SpecSendFailed
@@ -67,6 +69,7 @@ package pledge
 //@ func (r *responsible) propose(ctx context.Context) (res Response, err error)
 //@   requires r.MaxProposals >= 1 && int(r._proposedKey) + r.MaxProposals < 65535
 //@   ensures  err == nil ==> res.Key == r._proposedKey && res.Key > old(r._proposedKey)
+//@   atcall consultQuorum key == res.Key
 //@   assert_before "return res, nil" err == nil && len(quorum) == node.SpecActiveCount(r.candidateSnapshot)/2 + 1 && (forall k node.Key :: __in(quorum, k) ==> __in(r.candidateSnapshot, k) && r.candidateSnapshot[k].State == node.StateHealthy && freighter.SpecSentTo[quorum[k].Address])
 //@   modifies r, freighter.SpecSentTo, freighter.SpecSendFailed
 //@   loop 0 modifies r, freighter.SpecSentTo, freighter.SpecSendFailed
